@@ -36,6 +36,44 @@ def set_tuple_updates(argptr, vals):
     return {(root, path + (i,)): INT(v) for i, v in enumerate(vals)}
 
 
+def cls(vals):
+    if None in vals or not vals:
+        return "?"
+    if all(v < 0 for v in vals):
+        return "neg"
+    if all(v == 0 for v in vals):
+        return "zero"
+    if all(v > 0 for v in vals):
+        return "pos"
+    return "mixed:%s" % sorted(vals)
+
+
+def probe_class(prog, eff, script):
+    """model_version_probe evaluated on a list of threads whose should_enable results are given by script
+    (-1 error / incompatible, 0 not required, 1 required and compatible): class of the values returned."""
+    mvp = prog.fn("model_version_probe", "src/emu/model.c")
+    SYS = F("emu", "system")
+    names = ["T%d" % (i + 1) for i in range(len(script))]
+
+    def s_se(ex_, st, args, f, e):
+        t = args[2]
+        for nm, r in zip(names, script):
+            if t == PTR(nm):
+                return [(INT(r), {})]
+        return [(TOP, {})]
+
+    def s_parse(ex_, st, args, f, e):
+        return [(INT(0), set_tuple_updates(args[1], (1, 0, 0)) or {})]
+    e5 = absint.Explorer(prog, effects=eff, summaries={"should_enable": s_se, "version_parse": s_parse},
+                         loop_bound=len(script) + 2)
+    store = {("EMU", SYS + F("system", "threads")): PTR(names[0]) if names else NULL}
+    for i, nm in enumerate(names):
+        store[(nm, F("thread", "gnext"))] = PTR(names[i + 1]) if i + 1 < len(names) else NULL
+    outs = e5.run(mvp, [PTR("SPEC"), PTR("EMU")], store)
+    vals = {o.ret[1] if o.ret and o.ret[0] == "int" else None for o in outs if o.kind == "ret"}
+    return cls(vals)
+
+
 def run(ctx):
     prog = ctx.prog
     ctx.rule("R14.1", "version_is_compatible(want, have) and the open-coded test in ovni_version_check_str accept "
@@ -175,16 +213,6 @@ def run(ctx):
                 vals.add(o.ret[1] if o.ret and o.ret[0] == "int" else None)
         return vals
 
-    def cls(vals):
-        if None in vals or not vals:
-            return "?"
-        if all(v < 0 for v in vals):
-            return "neg"
-        if all(v == 0 for v in vals):
-            return "zero"
-        if all(v > 0 for v in vals):
-            return "pos"
-        return "mixed:%s" % sorted(vals)
     for (name, kw, want_cls, what) in (
             ("absent", dict(present=False), "zero", "a thread that does not require the model must yield 0"),
             ("no-metadata", dict(meta=False), "neg", "missing metadata must be an error"),
@@ -203,26 +231,9 @@ def run(ctx):
     # ---- R14.3 model_version_probe ---------------------------------------------------
     mvp = prog.fn("model_version_probe", "src/emu/model.c")
     SYS = F("emu", "system")
-    for script in [()] + [(a,) for a in (-1, 0, 1)] + list(itertools.product((-1, 0, 1), repeat=2)):
-        names = ["T%d" % (i + 1) for i in range(len(script))]
-
-        def s_se(ex_, st, args, f, e, script=script, names=names):
-            t = args[2]
-            for nm, r in zip(names, script):
-                if t == PTR(nm):
-                    return [(INT(r), {})]
-            return [(TOP, {})]
-
-        def s_parse(ex_, st, args, f, e):
-            return [(INT(0), set_tuple_updates(args[1], (1, 0, 0)) or {})]
-        e5 = absint.Explorer(prog, effects=eff, summaries={"should_enable": s_se, "version_parse": s_parse},
-                             loop_bound=4)
-        store = {("EMU", SYS + F("system", "threads")): PTR(names[0]) if names else NULL}
-        for i, nm in enumerate(names):
-            store[(nm, F("thread", "gnext"))] = PTR(names[i + 1]) if i + 1 < len(names) else NULL
-        outs = e5.run(mvp, [PTR("SPEC"), PTR("EMU")], store)
-        vals = {o.ret[1] if o.ret and o.ret[0] == "int" else None for o in outs if o.kind == "ret"}
-        got = cls(vals)
+    for script in [()] + [(a,) for a in (-1, 0, 1)] + list(itertools.product((-1, 0, 1), repeat=2)) + \
+            [(1, 0, -1), (0, 1, 0), (1, 1, -1), (0, 0, 1)]:
+        got = probe_class(prog, eff, script)
         want_cls = "neg" if -1 in script else ("pos" if 1 in script else "zero")
         ctx.check(got == want_cls, "R14.3", "model_version_probe:threads=%s" % (list(script),), mvp.loc(),
                   "per-thread results %s: returns %s, expected %s" % (list(script), got, want_cls))
